@@ -827,6 +827,10 @@ pub fn run(p: &Params) -> Run {
     run.notes.push("expression level: type-directed generator (≈ 80% well-typed, 20% with ill-typed sub-terms) + operator × type × type table".to_owned());
     // the end-to-end stream: the same property seen from raw texts and raw file bytes (`e2e.rs`, Lean `Pipeline.runText`)
     crate::e2e::stream(&mut run, &mut Rng::new(p.seed ^ 0xe2e03), p.n(250, 3000), "select");
+    // REAL arithmetic of the Lean model (exact integer arithmetic on bit patterns) against Rust's / the hardware's
+    let before = run.cases.len();
+    crate::f64cases::arith_stream(&mut run, &mut Rng::new(p.seed ^ 0xA217), p.n(2500, 60_000));
+    run.notes.push(format!("f64arith cases (Lean F64.add/sub/mul/div/sqrt/ofInt vs Rust): {}", run.cases.len() - before));
     run
 }
 
